@@ -355,6 +355,23 @@ pub fn run_c12(ctx: &Ctx) -> i32 {
     let ad = with_world(false, |w| Addrs::of(w));
     let mut alphabet: Vec<Program> = vec![];
     let mig_node = |code: u64, fail: bool| Node { writes: vec![WriteOp::Set(b"mig".to_vec(), format!("{}", code).into_bytes())], fail, data: Some(b"m".to_vec()), ..Default::default() };
+    // a fourth contract D whose admin is a name no address codec accepts ("owner": admins are
+    // recorded as given at instantiation); a stranger with such a name ("random") tries as well
+    let start12 = with_world(false, |world| {
+        let p = Program { entry: Entry::Instantiate { sender: ad.rich.clone(), code: 1, funds: vec![], label: "d".into(), admin: Some("owner".into()) }, root: 0, nodes: vec![Node::default()] };
+        advance(ctx, world, &starts.genesis, p, "genesis+D(admin: owner)", &homes, &mut st)
+    });
+    let d_addr = start12.mstate.contracts.keys().find(|k| ![&ad.a, &ad.b, &ad.c].contains(k)).cloned();
+    if let Some(d) = &d_addr {
+        for s in ["owner", "random"] {
+            alphabet.push(Program { entry: Entry::User { sender: s.to_string(), msg: Msg::UpdateAdmin { target: Target::Addr(d.clone()), admin: ad.poor.clone() } }, root: 0, nodes: vec![] });
+            alphabet.push(Program { entry: Entry::User { sender: s.to_string(), msg: Msg::ClearAdmin { target: Target::Addr(d.clone()) } }, root: 0, nodes: vec![] });
+            alphabet.push(Program { entry: Entry::User { sender: s.to_string(), msg: Msg::Migrate { target: Target::Addr(d.clone()), code: 2, node: 0 } }, root: 0, nodes: vec![mig_node(2, false)] });
+        }
+        alphabet.push(Program { entry: Entry::User { sender: ad.poor.clone(), msg: Msg::ClearAdmin { target: Target::Addr(d.clone()) } }, root: 0, nodes: vec![] });
+    } else {
+        machinery_error("C12: the fourth contract was not created");
+    }
     let targets = [ad.a.clone(), ad.b.clone(), ad.c.clone()];
     let senders = [ad.rich.clone(), ad.poor.clone()];
     let admins = [ad.rich.clone(), ad.poor.clone(), ad.a.clone()];
@@ -451,10 +468,10 @@ pub fn run_c12(ctx: &Ctx) -> i32 {
         }
     }
     let ex = Explorer { ctx, name: "admin-migration".into(), alphabet: alphabet.clone(), homes: &homes, max_depth: ctx.tier.pick(3, usize::MAX), max_states: ctx.tier.pick(60_000, 1_000_000), ext: false, invariant: None, keep_states: false, enabled: None };
-    let out = ex.run(&starts.genesis);
+    let out = ex.run(&start12);
     let mut extra = json!({});
     if out.closed && out.caps.is_empty() && out.states < 200_000 && ctx.vio_count.load(std::sync::atomic::Ordering::Relaxed) == 0 {
-        let sr = stateright_states(&starts.genesis, &alphabet, None, false);
+        let sr = stateright_states(&start12, &alphabet, None, false);
         if sr != out.states {
             machinery_error(&format!("C12: stateright explored {} unique states, own explorer {}", sr, out.states));
         }
@@ -465,7 +482,7 @@ pub fn run_c12(ctx: &Ctx) -> i32 {
         ctx,
         &[("admin-migration", &out)],
         samples,
-        json!({"operations": alphabet.len(), "contracts": ["A (admin: creator)", "B (admin: contract A)", "C (no admin)"], "senders": ["creator/admin", "stranger", "contract A or B via sub-message (reply_on Never and Error)"],
+        json!({"operations": alphabet.len(), "contracts": ["A (admin: creator)", "B (admin: contract A)", "C (no admin)", "D (admin: the name 'owner', which no address codec accepts)"], "senders": ["creator/admin", "stranger", "contract A or B via sub-message (reply_on Never and Error)", "'owner' and 'random' (D only)"],
                "migrate_targets": ["code 1", "code 2", "missing code 3"], "migrate_entry": ["succeeds", "fails"]}),
         vec!["admin candidates are {creator, stranger, contract A}".into()],
         extra,
